@@ -10,6 +10,7 @@ import (
 	"math/rand"
 	"os"
 	"os/exec"
+	"regexp"
 	"strings"
 	"sync"
 	"time"
@@ -130,7 +131,7 @@ func runRaceStress(seed int64, goroutines, callsEach int) {
 			continue
 		}
 		o := validate(j.profile, j.data, rcFor(i))
-		serial[i] = o.Kind + "\n" + o.Report
+		serial[i] = o.Kind + "\n" + o.Report + maskAddr(o.Err)
 	}
 	shared, err := pkg.CompileProfile(jobs[0].profile, false, nil)
 	if err != nil {
@@ -225,7 +226,7 @@ func runRaceStress(seed int64, goroutines, callsEach int) {
 				switch (t + 2*k) % 3 {
 				case 0:
 					o := validate(jobs[i].profile, jobs[i].data, rcFor(i))
-					got, want, what = o.Kind+"\n"+o.Report, serial[i], "ValidateWithConfiguration"
+					got, want, what = o.Kind+"\n"+o.Report+maskAddr(o.Err), serial[i], "ValidateWithConfiguration"
 					raw, rawCopy = o.Raw, o.Report
 				case 1:
 					rep, err := pkg.ValidateCompiledWithConfiguration(shared, jobs[i].data, false, nil, fixedClock{}, rcFor(i))
@@ -234,14 +235,14 @@ func runRaceStress(seed int64, goroutines, callsEach int) {
 					c, err := pkg.CompileProfile(jobs[i].profile, false, nil)
 					if err != nil {
 						// a rejected profile: the serial validation of the same job reports an error too
-						got, want, what = "error\n", serial[i], "CompileProfile"
+						got, want, what = "error\n"+maskAddr(err.Error()), serial[i], "CompileProfile"
 					} else if c == nil {
 						got, want, what = "nil compiled profile without an error", serial[i], "CompileProfile"
 					} else {
 						rep, err := pkg.ValidateCompiledWithConfiguration(c, jobs[i].data, false, nil, fixedClock{}, rcFor(i))
 						got, want, what = "ok\n"+rep, serial[i], "CompileProfile+ValidateCompiled"
 						if err != nil {
-							got = "error\n"
+							got = "error\n" + maskAddr(err.Error())
 						}
 					}
 				}
@@ -272,7 +273,7 @@ func runRaceStress(seed int64, goroutines, callsEach int) {
 	for i, j := range jobs {
 		if isCold(i) {
 			o := validate(j.profile, j.data, rcFor(i))
-			serial[i] = o.Kind + "\n" + o.Report
+			serial[i] = o.Kind + "\n" + o.Report + maskAddr(o.Err)
 		}
 	}
 	for _, p := range cold {
@@ -306,6 +307,11 @@ func runRaceStress(seed int64, goroutines, callsEach int) {
 	_ = os.Stdout
 }
 
+var addrRe = regexp.MustCompile(`0x[0-9a-fA-F]+`)
+
+// maskAddr: the text of an error is part of what a call returns; only the addresses some messages print are not
+func maskAddr(s string) string { return addrRe.ReplaceAllString(s, "0xX") }
+
 // soloJob: what one call returns when it is the only call its process ever makes (the reference C10 speaks of: "what it would
 // return if it ran alone"); the job is handed to a fresh process of this binary
 type soloReq struct {
@@ -338,7 +344,7 @@ func runSoloJob(in io.Reader) {
 		os.Exit(2)
 	}
 	o := validate(q.Profile, q.Data, config.ReportConfiguration{IncludeReportCreationTime: q.Date, ReportSchemaIri: q.Report, LexicalSchemaIri: q.Lexical})
-	fmt.Print(o.Kind + "\n" + o.Report)
+	fmt.Print(o.Kind + "\n" + o.Report + maskAddr(o.Err))
 }
 
 // milestonesOf validates with an event channel whose events the library's own generator turns into milestones; returns a
